@@ -9,4 +9,6 @@ assert x690.ident(0, 0, 31) == [31, 31] and x690.length_def(128) == [129, 128]
 r = subprocess.run(['/venv/bin/python', '-c', 'import pyasn1.codec.ber.decoder, pyasn1.codec.der.encoder; print("ok")'],
                    env=dict(os.environ, PYTHONPATH=os.environ.get('PYVC_REPO', '/repo')), capture_output=True, text=True)
 assert r.stdout.strip() == 'ok', r.stderr
+from pyvc import selfcheck
+selfcheck.main()
 print('pyvc selftest ok: z3', z3.get_version_string())
